@@ -236,6 +236,9 @@ def run_shard(ctx):
         how = "long-list"
     for c in collected:
         ctx.run_plain(lambda c=c: judge(ctx, L, c.type, c.cc, c.enc, c.data, how), how)
+    # very long buffers with events behind them (a GetRandom response with a session and up to 65535 random bytes)
+    for c in ctx.mine(gen.huge_messages(L)):
+        ctx.run_plain(lambda c=c: judge(ctx, L, c.type, c.cc, c.enc, c.data, "huge-message"), "huge-message")
     ctx.run_given(arb.faulted_input(L), lambda x: judge(ctx, L, x[0], x[1], x[2], x[3], "faulted"), ctx.share(2500 if q else 40000), name="faulted")
     ctx.run_given(arb.arbitrary_input(L), lambda x: judge(ctx, L, x[0], x[1], x[2], x[3], x[4]), ctx.share(1500 if q else 25000), name="arbitrary")
 
